@@ -260,11 +260,49 @@ impl ParseSess {
         )
     }
 
+    /// The text of the input with every `\r` that the source map dropped from a `\r\n` put
+    /// back (a byte order mark stays dropped).
     pub(crate) fn get_original_snippet(&self, file_name: &FileName) -> Option<Arc<String>> {
-        self.raw_psess
+        let source_file = self
+            .raw_psess
+            .source_map()
+            .get_source_file(&file_name.into())?;
+        let src = source_file.src.as_ref()?;
+        let mut text = String::with_capacity(src.len() + source_file.normalized_pos.len());
+        let (mut copied, mut dropped) = (0, 0);
+        for normalized in &source_file.normalized_pos {
+            let removed = normalized.diff - dropped;
+            dropped = normalized.diff;
+            if removed != 1 {
+                // The byte order mark.
+                continue;
+            }
+            let newline = normalized.pos.0 as usize - 1;
+            text.push_str(&src[copied..newline]);
+            text.push('\r');
+            copied = newline;
+        }
+        text.push_str(&src[copied..]);
+        Some(Arc::new(text))
+    }
+
+    /// Whether the first line of the input, as it was read, ended in `\r\n`. The source map
+    /// keeps the text with `\n` only and records where a `\r` was dropped.
+    pub(crate) fn first_newline_was_crlf(&self, file_name: &FileName) -> bool {
+        let Some(source_file) = self
+            .raw_psess
             .source_map()
             .get_source_file(&file_name.into())
-            .and_then(|source_file| source_file.src.clone())
+        else {
+            return false;
+        };
+        let Some(first_newline) = source_file.src.as_ref().and_then(|src| src.find('\n')) else {
+            return false;
+        };
+        source_file
+            .normalized_pos
+            .iter()
+            .any(|normalized| normalized.pos.0 as usize == first_newline + 1)
     }
 }
 
